@@ -2,18 +2,53 @@ PROPERTY = 'C39'
 LEVEL = 'proof'
 VERUS = ['verus/C39.rs']
 TRUSTED = [
-    'Verus 0.2026.09.13 + bundled Z3; vstd (incl. its specs of Ord::min/max on i64)',
+    'Verus 0.2026.09.13 + bundled Z3; vstd (incl. its specs of Ord::min/max on i64, Vec::{remove, insert, truncate, len}, Option::{map, unwrap_or})',
     'assumed std contract (vstd has none): i64::saturating_add',
-    'carriers Competition / Participant: the fields the function touches; full field lists of the repo structs compared on every run (R11); Pubkey as two u128 words',
+    'carriers Competition / Participant / LeaderEntry: the fields the functions touch; full field lists of the repo structs compared on every run (R11); Pubkey as two u128 words (only equality is used)',
     'Clock::get() replaced by a fallible read of one uninterpreted clock value now_spec() (logged unit rewrite); msg! dropped (R16); debug_assert! kept as a proved assertion (R7)',
+    'rules R17/R18 (logged per use): `<vec>.iter().position(|v| P)` / `.rposition(|v| P)` become calls of slice_position / slice_rposition -- ordinary loops over the vector, verified in the template -- with the closure kept and given its own body as its Verus-checked postcondition; `.map(|v| EXPR)` on the resulting Option likewise. Trusted: slice::Iter::position / rposition visit front-to-back / back-to-front and return the index from the front of the first match',
+    'MAX_LEADERBOARD_LEN = 5: compared with /repo on every run',
 ]
 UNVERIFIED = [
-    'THE LEADERBOARD HALF OF THE PROPERTY IS NOT COVERED: OnExecuted::update_leaderboard (at most five distinct traders, non-increasing order, latest volume, left-off participants not above the last entry) works on Vec::remove / insert / truncate with iterator closures (position / rposition), outside Verus\' subset; the planned Kani harness is not built. A change to update_leaderboard is NOT detected by this check.',
-    'the call site in OnExecuted::invoke (extension only when the volume threshold is exceeded and the competition is ongoing): not under contract',
-    'no native replay: private fn of an Anchor program crate; a failed obligation is reported with the verifier output and no-failing-input-found',
+    'the induction over histories is by the per-step contract plus lemma_left_off_preserved and lemma_empty_board_wf; the quantification over ALL participants (one bystander at a time) and the link "shown volume == that participant\'s stored volume" are carried by the step contract, the composition over an unbounded sequence of trades is not mechanised',
+    'the call site in OnExecuted::invoke (part.volume = part.volume.saturating_add(volume) before the call -- the source of the precondition "cumulative volume only grows"; extension only when the threshold is exceeded and the competition is ongoing): located by text on every run, not under contract',
+    'native replay of update_leaderboard runs the function TEXT (verbatim) on plain-Rust carriers over a small domain (7 addresses, volumes 0..=4, every well-formed board): a bounded search used only to find a failing input / as fallback when the function leaves the Verus subset; never counted as discharged',
 ]
-ASSUMPTIONS = ['wf(Competition): end_time >= 0, extension_duration > 0, extension_cap >= extension_duration (enforced by initialize_competition; proved to be preserved by extend_competition_time)']
+ASSUMPTIONS = ['wf(Competition): end_time >= 0, extension_duration > 0, extension_cap >= extension_duration (enforced by initialize_competition; proved to be preserved by extend_competition_time)',
+               'update_leaderboard is called with the trader\'s cumulative volume, which is at least the volume they are currently shown with (saturating_add at the call site; located by text)']
 MANIFEST = dict(engine='verus',
-    technique='Verus contract on the private associated function OnExecuted::extend_competition_time extracted by text from /repo each run',
-    text='PARTIAL (extension clause only). Deductive proof, unbounded over all end times, durations, caps and clock values (full i64, saturating sums included): an extension never moves the end time earlier and never past the later of the old end time and now + cap; a failed call changes nothing; no arithmetic overflow in the logged difference; the competition invariant is preserved. The leaderboard clauses are not covered by any check (listed as unverified).',
-    note='Partial claim: only the time-extension clause of C39. update_leaderboard (Vec + iterator closures) is outside Verus and no Kani harness is built for it.')
+    technique='Verus contracts on the private associated functions OnExecuted::{update_leaderboard, extend_competition_time} extracted by text from /repo each run; Vec remove/insert/truncate through vstd, iterator position/rposition through verified loop helpers (rules R17/R18); sequence lemmas for the removal, insertion and truncation steps; bounded native run of the extracted text for replay',
+    text='Deductive proof, unbounded. Leaderboard step (any well-formed board of up to five entries, any trader, any cumulative volume not below the shown one): afterwards the board has at most five pairwise distinct traders in non-increasing order of volume; the trader is shown with the latest volume or is left off a full board whose last entry has at least as much; every other shown trader keeps their volume or is pushed off a full board whose last entry has at least as much; nobody else appears; the board never loses a place and the last volume of a full board never drops; lemma: a bystander who was left off stays left off with no more volume than the last entry; the empty initial board is well formed. Extension (all i64 clocks, saturating sums included): never earlier, never past the later of the old end time and now + cap; a failed call changes nothing; the competition invariant is preserved.',
+    note='The composition of steps over an unbounded history is by induction on the per-step contract (not mechanised). Call sites in OnExecuted::invoke are located, not proved.')
+
+
+def _native(repo):
+    from engine import native
+    return native.run('native/C39.rs', repo)
+
+
+def replay(ob, repo, seed):
+    if 'update_leaderboard' not in ob['id']:
+        return None
+    r = _native(repo)
+    if r['error']:
+        return dict(failing_input=None, note='native run of the extracted text not possible: ' + r['error'])
+    if r['fails']:
+        return dict(failing_input=dict(function='OnExecuted::update_leaderboard (text verbatim from /repo on plain-Rust carriers)', cases=r['fails']),
+                    note=f"bounded native search over every well-formed board of <= 5 entries with 7 addresses and volumes 0..=3; first failing cases listed; {r['log']}")
+    return dict(failing_input=None, note=f"{r['executions']} native executions of the extracted text (every well-formed board, 7 addresses, volumes 0..=3) satisfied the step postcondition")
+
+
+FALLBACK_OBS = ['C39.update_leaderboard']
+
+
+def extra(res, repo, tier, seed):
+    import os, re
+    s = open(os.path.join(repo, 'programs/competition/src/instructions/trade_callback.rs')).read()
+    for pat, what in [(r'part\.volume = part\.volume\.saturating_add\(volume\);', 'cumulative volume only grows before update_leaderboard is called'),
+                      (r'Self::update_leaderboard\(comp, part\);', 'call of update_leaderboard')]:
+        if len(re.findall(pat, s)) != 1:
+            res.undecided.append(f'anchor lost: trade_callback.rs: {what} (/{pat}/ not found exactly once)')
+    if tier == 'thorough':
+        r = _native(repo)
+        res.bounded.append(dict(id='C39.native.update_leaderboard', bound='every well-formed board of <= 5 entries over 7 addresses and volumes 0..=3, every trader and new volume up to 4', status='bounded-ok' if r['ok'] else 'bounded-failed', checks=r['executions'], time_s=None))
